@@ -1720,7 +1720,8 @@ def run(ctx):
         if r["excluded"]:
             excluded.append(f"{r['name']}: {r['excluded']}")
             continue
-        slow.append((r["wall"], r["name"]))
+        slow.append((r["cpu"], r["name"]))
+        tot["cpu"] = tot.get("cpu", 0.0) + r["cpu"]
         if r["mode"] == "discrete":
             tot["discrete_exec"] += st.get("executions", 0)
             tot["members"] += st.get("members", 0)
@@ -1783,7 +1784,8 @@ def run(ctx):
         bracket_width_median=float(np.median(widths)) if widths else None,
         bracket_width_max=float(np.max(widths)) if widths else None,
         density_spread_max=float(np.max(spreads)) if spreads else None,
-        slowest=sorted(slow, reverse=True)[:5],
+        slowest_cpu_s=sorted(slow, reverse=True)[:5],
+        cpu_total_s=round(tot.get("cpu", 0.0), 1),
         bounds=dict(
             lattice_N=par["N"],
             cells_per_axis=par["G"],
